@@ -80,7 +80,15 @@ impl<C: Config, Q: Query> Snapshot<C, Q> {
         // order to determine if the query needs to be recomputed. When it's
         // decided to recompute, we will have to clear the dependencies recorded
         // during the repairation phase to avoid keeping stale dependencies.
-        lock_guard.query_computing().clear_dependencies();
+        //
+        // The exception is a query that was found to lie on a dependency
+        // cycle while its old dependencies were being verified: its execution
+        // stops at the very first read, so the callees registered during the
+        // verification (the one that closes the cycle among them) are the
+        // only record of what it depends on.
+        if !lock_guard.query_computing().is_in_scc() {
+            lock_guard.query_computing().clear_dependencies();
+        }
 
         // recompute the query
         snapshot
